@@ -17,6 +17,7 @@ volatile unsigned long g_sink;
 volatile int g_rc;
 unsigned char g_heap_snap[SNAPMAX];
 volatile size_t g_heap_snap_len;
+void *volatile g_heap_ptr;
 
 void spy_escape(void *p) { g_spy = p; }
 
@@ -42,6 +43,7 @@ void free(void *p) {
         for (size_t i = 0; i < n; i++)
             g_heap_snap[i] = q[i];
         g_heap_snap_len = n;
+        g_heap_ptr = p;
     }
 }
 
